@@ -164,3 +164,19 @@ func (s *Store) extUserinfoReplace(ui *oidc.UserInfo) {
 		*ui = oidc.UserInfo{}
 	}
 }
+
+// ---- C06: token ids are the storage's: SetAccessTokenIDSuffix(x) makes every access-token id
+// "at<n>" + x (any text without ':'; default "": unchanged). Other ids are not touched.
+var atIDSuffix sync.Map // *Store -> string
+
+func (s *Store) SetAccessTokenIDSuffix(x string) { atIDSuffix.Store(s, x) }
+
+func (s *Store) extIDSuffix(prefix string) string {
+	if prefix != "at" {
+		return ""
+	}
+	if x, ok := atIDSuffix.Load(s); ok {
+		return x.(string)
+	}
+	return ""
+}
